@@ -17,7 +17,7 @@ import (
 
 func init() {
 	Register(&Scenario{
-		Name: "bookkeeping", Props: []string{"C09"}, CrashTo: "",
+		Name: "bookkeeping", Knobs: true, Props: []string{"C09"}, CrashTo: "C05", Also: map[string]int{"C05": 1}, // peers answer with over-long, misplaced, empty, corrupt blocks
 		Horizon: 3 * time.Hour, MaxSteps: 1500000, Weight: 1, Main: bookMain,
 		NontrivialNeedsFault: true,
 	})
@@ -113,7 +113,7 @@ func drawBookPeer(st *simrt.Stream, spec *TorSpec, name string, port int) PeerCf
 	}
 	cfg := PeerCfg{
 		Name: name, Port: port, Fast: st.Bool(1, 2), Ext: st.Bool(2, 3), DHT: st.Bool(1, 4),
-		MSE: st.Bool(1, 4), Have: func(i int) bool { return mask[i] }, Advertise: st.Choice(3),
+		MSE: st.Bool(1, 4), Have: func(i int) bool { return mask[i] }, Advertise: DrawAdvertise(st),
 		Reqq: simrt.Pick(st, -1, 250, 4, 2, 1), MetadataSize: -1,
 		UnchokeAfter: time.Duration(st.Choice(4)) * time.Second,
 	}
